@@ -133,7 +133,15 @@ PtAttrFirstItem(mac) ==
 PtModuleItem ==
     LET base == PtItem("contract", <<1, 2, 1, 1, 1>>) IN
     [base EXCEPT !.id = "PM1", !.mattr = "module = crate::counter"]
-PtFamily == {PtModuleItem} \cup {PtAttrFirstItem(mac) : mac \in {"contract", "interface"}} \cup {PtLintItem(i) : i \in 1..4} \cup {PtIfacesItem(n) : n \in {2, 3, 5}} \cup {PtItem(mac, c) : mac \in {"contract", "interface", "entry_points"}, c \in [1..5 -> 0..PtChoices]}
+(* conditional compilation written inside the macro input: on the item, on a handler, on a helper (kept wherever it is written) *)
+PtCfgItem(mac, site) ==
+    LET base == PtItem(mac, [x \in 1..5 |-> 0])
+        hix == IF mac = "interface" THEN 1 ELSE 3
+        tag == [base EXCEPT !.id = "PC" \o (IF mac = "interface" THEN "i" ELSE "c") \o ToString(site)] IN
+    CASE site = 1 -> [tag EXCEPT !.attrs = <<A("cfg", "not(feature = \"zz\")")>> \o @]
+      [] site = 2 -> [tag EXCEPT !.members[hix] = [@ EXCEPT !.attrs = <<A("cfg", "all()")>> \o @]]
+      [] OTHER    -> [tag EXCEPT !.members[hix + 1] = [@ EXCEPT !.attrs = <<A("cfg", "not(test)"), A("inline", "")>>]]
+PtFamily == {PtCfgItem(mac, site) : mac \in {"contract", "interface"}, site \in 1..3} \cup {PtModuleItem} \cup {PtAttrFirstItem(mac) : mac \in {"contract", "interface"}} \cup {PtLintItem(i) : i \in 1..4} \cup {PtIfacesItem(n) : n \in {2, 3, 5}} \cup {PtItem(mac, c) : mac \in {"contract", "interface", "entry_points"}, c \in [1..5 -> 0..PtChoices]}
 
 (* ------------------------------------------------------------------ fw *)
 Marker(i) == A("doc", "= \"m" \o ToString(i) \o "\"")
@@ -337,6 +345,18 @@ RuleFamily == {
     Bad(RuleHost, "X_no_inst", "missing_instantiate", WithMembers(RuleHost, <<New, RuleHost.members[3], RuleHost.members[4]>>)),
     Bad(RuleHost, "X_two_inst", "two_instantiate", AddMember(RuleHost, H("instantiate2", "instantiate", <<>>))),
     Bad(RuleHost, "X_two_mig", "two_migrate", AddMember(AddMember(RuleHost, H("migrate", "migrate", <<>>)), H("migrate2", "migrate", <<>>))),
+    \* ... whatever the handlers are called: names that differ only in what case conversion drops (the message variant of
+    \* both would be `Instantiate`), a third handler, the extra handler declared first
+    Bad(RuleHost, "X_two_inst_u", "two_instantiate", AddMember(RuleHost, H("instantiate_", "instantiate", <<>>))),
+    Bad(RuleHost, "X_two_inst_l", "two_instantiate", AddMember(RuleHost, H("_instantiate", "instantiate", <<P("b", "u32")>>))),
+    Bad(RuleHost, "X_two_inst_d", "two_instantiate",
+        AddMember(SetMember(RuleHost, 2, H("init_contract", "instantiate", <<P("a", "u32")>>)), H("init__contract", "instantiate", <<P("a", "u32")>>))),
+    Bad(RuleHost, "X_two_inst_f", "two_instantiate",
+        WithMembers(RuleHost, <<New, H("instantiate2", "instantiate", <<>>)>> \o Tail(RuleHost.members))),
+    Bad(RuleHost, "X_three_inst", "two_instantiate",
+        AddMember(AddMember(RuleHost, H("instantiate2", "instantiate", <<>>)), H("instantiate_", "instantiate", <<>>))),
+    Bad(RuleHost, "X_two_mig_u", "two_migrate", AddMember(AddMember(RuleHost, H("migrate", "migrate", <<>>)), H("migrate_", "migrate", <<>>))),
+    Bad(RuleHost, "X_two_mig_d", "two_migrate", AddMember(AddMember(RuleHost, H("move_on", "migrate", <<>>)), H("move__on", "migrate", <<P("v", "u32")>>))),
     Bad(IfaceHost, "X_if_inst", "instantiate_in_interface", AddMember(IfaceHost, [H("instantiate", "instantiate", <<>>) EXCEPT !.body = ""])),
     Bad(IfaceHost, "X_if_mig", "migrate_in_interface", AddMember(IfaceHost, [H("migrate", "migrate", <<>>) EXCEPT !.body = ""])),
     \* several such handlers in one interface (each of them is an offence)
@@ -423,8 +443,8 @@ RuleFamily == {
 (* (its attributes or header), i.e. anywhere in the item                                                                  *)
 SitesOf(rule) ==
     CASE rule = "new_with_parameter" -> <<"new">>
-      [] rule = "two_instantiate" -> <<"instantiate", "instantiate2">>
-      [] rule = "two_migrate" -> <<"migrate", "migrate2">>
+      [] rule = "two_instantiate" -> <<"instantiate", "instantiate2", "instantiate_", "_instantiate", "init_contract", "init__contract">>
+      [] rule = "two_migrate" -> <<"migrate", "migrate2", "migrate_", "move_on", "move__on">>
       [] rule = "instantiate_in_interface" -> <<"instantiate", "instantiate2", "migrate">>
       [] rule = "migrate_in_interface" -> <<"migrate", "migrate2">>
       [] rule \in {"unknown_message_kind", "unknown_sv_msg_argument", "two_sv_msg_on_one_method", "pattern_argument",
